@@ -156,7 +156,7 @@ func init() {
 			// (c) scaled
 			for _, s := range gen.ScaledFamilies(c.Thorough()) {
 				if strings.HasPrefix(s.Name, "pad") || strings.HasPrefix(s.Name, "lines") || strings.HasPrefix(s.Name, "atlimit") ||
-					strings.HasPrefix(s.Name, "stackdepth") || strings.HasPrefix(s.Name, "nest-") || strings.HasPrefix(s.Name, "vars-") || strings.HasPrefix(s.Name, "jump-") {
+					strings.HasPrefix(s.Name, "stackdepth") || strings.HasPrefix(s.Name, "nest-") || strings.HasPrefix(s.Name, "vars-") || strings.HasPrefix(s.Name, "jump-") || strings.HasPrefix(s.Name, "constpool-") || strings.HasPrefix(s.Name, "nestthen-") {
 					do(s.Src)
 				}
 			}
